@@ -19,9 +19,10 @@ LIBS = {
     'Lib.B': ['Foo', 'Other'],
     'Deep.Nested.C': ['Baz'],
     'Q': ['Qux', 'Quux'],
+    'std.extra': ['Sx'],          # a provider under the `std` namespace (imported like any other module)
 }
 # candidate unresolved classes and the modules that export them
-CANDIDATES = {'Foo': ['Lib.A', 'Lib.B'], 'Baz': ['Deep.Nested.C'], 'Qux': ['Q']}
+CANDIDATES = {'Foo': ['Lib.A', 'Lib.B'], 'Baz': ['Deep.Nested.C'], 'Qux': ['Q'], 'Sx': ['std.extra']}
 # classes an existing import may bring in (never a candidate)
 HELPERS = [('Bar', 'Lib.A'), ('Other', 'Lib.B'), ('Quux', 'Q')]
 
